@@ -212,6 +212,24 @@ pub fn universe(ctx: &Ctx, rng: &mut Rng, target: usize, for_c12: bool) -> Unive
         }
         vals.push(Val::Map(vec![(Val::atom("k"), t.clone())]));
     }
+    // every bit-string of up to 5 bits, and every one of 8..10 bits over a fixed first byte pattern pair
+    for nbits in 0..=5u32 {
+        for v in 0..(1u32 << nbits) {
+            let byte = if nbits == 0 { 0u8 } else { (v << (8 - nbits)) as u8 };
+            vals.push(if nbits == 0 { Val::binary(&[]) } else { Val::bitstring(&[byte], nbits as u8) });
+        }
+    }
+    for first in [0x01u8, 0x03] {
+        for nbits in 0..=2u32 {
+            for v in 0..(1u32 << nbits) {
+                if nbits == 0 {
+                    vals.push(Val::binary(&[first]));
+                } else {
+                    vals.push(Val::bitstring(&[first, (v << (8 - nbits)) as u8], nbits as u8));
+                }
+            }
+        }
+    }
     // sibling families: members differ in one digit / field / trailing word / tail kind / padding bit
     for fam in crate::genr::near::families(rng) {
         for v in fam.members {
@@ -483,7 +501,7 @@ pub fn run_c11(ctx: &Ctx) {
 }
 
 pub fn run_c12(ctx: &Ctx) {
-    ctx.rule("all ordered pairs of the universe U (C11's core extended with neighbours of representation boundaries, floats adjacent to integers, prefixes/extensions of bit-strings, nested containers and maps) compared by the library and by an independent implementation of Erlang's term order; distinct = distinct unordered (variant,variant) leaf-pairs");
+    ctx.rule("all ordered pairs of the universe U (C11's core extended with neighbours of representation boundaries, floats adjacent to integers, prefixes/extensions of bit-strings, nested containers and maps) compared by the library and by an independent implementation of Erlang's term order; plus all pairs of all bit-strings of up to 9 (quick) / 11 (thorough) bits, owned and zero-copy; distinct = distinct unordered (variant,variant) leaf-pairs");
     ctx.assume("order among identifiers/funs of the same kind is only checked for equality; maps with mixed integer/float keys are excluded (not representable in the library's map)");
     let mut rng = Rng::derive(ctx.seed, 12, 1);
     let target = ctx.pick(300usize, 1200usize);
@@ -542,6 +560,46 @@ pub fn run_c12(ctx: &Ctx) {
         }
     }
     ctx.extra("pairs_skipped_mixed_numeric_map_keys", json!(skipped));
+    // all pairs of ALL bit-strings of up to 9 (quick) / 11 (thorough) bits: bit-wise order, owned and zero-copy
+    {
+        let max_bits = ctx.pick(9u32, 11u32);
+        let mut bs: Vec<(Val, OwnedTerm)> = Vec::new();
+        for nbits in 0..=max_bits {
+            for v in 0..(1u32 << nbits) {
+                let nbytes = ((nbits + 7) / 8) as usize;
+                let shifted = if nbits == 0 { 0u32 } else { v << (nbytes as u32 * 8 - nbits) };
+                let bytes: Vec<u8> = (0..nbytes).map(|i| (shifted >> (8 * (nbytes - 1 - i))) as u8).collect();
+                let last = if nbits % 8 == 0 { 8 } else { (nbits % 8) as u8 };
+                let val = if nbits == 0 { Val::binary(&[]) } else { Val::bitstring(&bytes, last) };
+                if let Some(t) = term_of(&val, &mut rng, Style::User) {
+                    bs.push((val, t));
+                }
+            }
+        }
+        let mut bad = 0u64;
+        for (va, a) in &bs {
+            let ba = BorrowedTerm::from(a);
+            for (vb, b) in &bs {
+                let expect = erl_cmp(va, vb);
+                let got = a.cmp(b);
+                let gotb = ba.cmp(&BorrowedTerm::from(b));
+                if got != expect || gotb != expect {
+                    bad += 1;
+                    if bad <= 5 {
+                        ctx.viol(
+                            &format!("C12:bit-strings:{}->{}", ord_code(expect), ord_code(if got != expect { got } else { gotb })),
+                            "bit-strings are not ordered bit-wise",
+                            json!({"a": va.show(), "b": vb.show(), "erlang": ord_code(expect), "owned": ord_code(got), "borrowed": ord_code(gotb)}),
+                        );
+                    }
+                }
+            }
+        }
+        ctx.eval((bs.len() * bs.len()) as u64);
+        ctx.class("bit-strings/exhaustive");
+        ctx.extra("bit_strings_exhaustive_up_to_bits", json!(max_bits));
+        ctx.extra("bit_string_pairs_disagreeing", json!(bad));
+    }
     ctx.exhaustive(true);
 }
 
